@@ -170,7 +170,9 @@ Definition wk_leb (a b : wkpc) : bool := lex_leb (wk_code a) (wk_code b).
 (* Inside one reaction only the visible events and the writes (in order) matter, and workers are
    interchangeable: drop the ghost events, sort the others, keep the writes in order, sort the workers. *)
 Definition canon (s : state) : state :=
-  mkState (inbox s) (inbox_failed s) (wfail s) (wblock s) (srv_stop s) (serve_ctx s) (conn_cancel s) (cause_write s)
+  mkState (inbox s) (inbox_failed s) (wfail s) (wblock s) (srv_stop s) (serve_ctx s) (conn_cancel s)
+          (* the cause of the cancellation is only read by a read loop that is still serving *)
+          (match rd s with RdCws _ | RdWait _ _ | RdDead _ => false | _ => cause_write s end)
           (exit_cancel s) (rd s) (sort_by wk_leb (wk s)) (wr s) (hs s) (crashed s)
           (sort_by sev_leb (filter visible (log s)) ++ filter is_write (log s)).
 
@@ -178,12 +180,98 @@ Definition clear_log (s : state) : state :=
   mkState (inbox s) (inbox_failed s) (wfail s) (wblock s) (srv_stop s) (serve_ctx s) (conn_cancel s) (cause_write s)
           (exit_cancel s) (rd s) (wk s) (wr s) (hs s) (crashed s) [].
 
-Definition int_succs (s : state) : list state := map canon (filter_map (fun r => r s) (rules s)).
+(* Partial-order reduction. A rule instance that (a) stays enabled whatever else happens, (b) disables no other
+   rule and (c) commutes with every other rule up to the order of log entries (which [canon] forgets) can be
+   taken first without losing any quiescent state. Such are: a handler leaving <-ctx.Done(); once the read loop
+   has left serve (nothing is offered to workers or forwarded to queues any more): an idle worker's exit and a
+   handler leaving RecvMsg on an empty queue by its context; once the writer is dead (nothing is taken from
+   writeChan any more): a worker or a handler giving up its hand-off by the context; the writer's transport
+   Write once it can complete (it only frees the writer and, on failure, cancels the connection: every other
+   rule's guard is monotone in both). *)
+Definition rd_left (s : state) : bool := match rd s with RdCws _ | RdWait _ _ | RdDead _ => true | _ => false end.
+Definition wr_dead (s : state) : bool := match wr s with WrDead => true | _ => false end.
+Definition r_h_recv_ctx_empty (h : nat) (s : state) : option state :=
+  match nth_error (hs s) h with
+  | Some k => match h_q k with None => r_h_recv_ctx h s | Some _ => None end
+  | None => None
+  end.
+Definition eager_rules (s : state) : list rule :=
+  r_wr_write :: map r_h_await (seq 0 (length (hs s)))
+  ++ (if rd_left s then map r_wk_exit (seq 0 (length (wk s))) ++ map r_h_recv_ctx_empty (seq 0 (length (hs s))) else [])
+  ++ (if wr_dead s then map r_wk_hand_ctx (seq 0 (length (wk s))) ++ map r_h_send_ctx (seq 0 (length (hs s))) else []).
 
-(* every quiescent state the model can reach in reaction to one environment action *)
-Definition react_all (s : state) (a : act) : option (list state) :=
+Definition int_succs (s : state) : list state :=
+  match first_enabled (eager_rules s) s with
+  | Some s' => [canon s']
+  | None => map canon (filter_map (fun r => r s) (rules s))
+  end.
+
+(* exploration with a bucketed visited set: states are first compared by a cheap fingerprint *)
+Definition mixz (acc z : Z) : Z := (acc * 31 + z) mod 1000003.
+Definition hpc_code (p : hpc) : Z :=
+  match p with HGate => 1 | HInRecv => 2 | HInSend _ KMsg => 3 | HInSend _ KHdr => 4 | HInSend _ KTrl => 5
+             | HInAwait => 6 | HUnreg => 7 | HDead => 8 end.
+Definition hnd_fp (k : hnd) : Z :=
+  hpc_code (h_pc k) * 16 + (if h_cancel k then 8 else 0) + (if h_reg k then 4 else 0)
+  + (match h_q k with Some _ => 2 | None => 0 end) + (if h_donesig k then 1 else 0).
+Definition rd_fp (p : rdpc) : Z :=
+  match p with RdRead => 1 | RdOffer _ => 2 | RdFwd h _ => 10 + Z.of_nat h | RdRst _ => 3 | RdCws _ => 4
+             | RdWait h _ => 40 + Z.of_nat h | RdDead _ => 5 end.
+Definition wk_fp (p : wkpc) : Z := match p with WkIdle => 1 | WkDead => 2 | WkRun h => 3 + Z.of_nat h | WkHand _ => 100 end.
+Definition state_fp (s : state) : Z :=
+  fold_left mixz (map hnd_fp (hs s))
+    (fold_left mixz (map wk_fp (wk s))
+       (mixz (mixz (mixz (rd_fp (rd s)) (match wr s with WrSel => 1 | WrWrite _ => 2 | WrDead => 3 end))
+                   (Z.of_nat (length (log s))))
+             ((if conn_cancel s then 1 else 0) + Z.of_nat (length (inbox s)) * 2))).
+
+Definition bseen := list (Z * list state).
+Fixpoint b_mem (k : Z) (x : state) (b : bseen) : bool :=
+  match b with
+  | [] => false
+  | (k', l) :: t => if k =? k' then existsb (state_eqb x) l else b_mem k x t
+  end.
+Fixpoint b_add (k : Z) (x : state) (b : bseen) : bseen :=
+  match b with
+  | [] => [(k, [x])]
+  | (k', l) :: t => if k =? k' then (k', x :: l) :: t else (k', l) :: b_add k x t
+  end.
+(* add the states of [l] that are new; returns them (in order) and the extended visited set *)
+Fixpoint b_fresh (l : list state) (b : bseen) : list state * bseen :=
+  match l with
+  | [] => ([], b)
+  | x :: t => let k := state_fp x in
+              if b_mem k x b then b_fresh t b
+              else let (r, b') := b_fresh t (b_add k x b) in (x :: r, b')
+  end.
+
+(* [keep] prunes successors that can no longer lead to the observation (a state without successors BEFORE
+   pruning is quiescent; a state all of whose successors are pruned is a dead end) *)
+Fixpoint explore_b (succs : state -> list state) (keep : state -> bool) (fuel : nat) (todo : list state) (seen : bseen)
+         (quiet : list state) : option (list state) :=
+  match todo with
+  | [] => Some quiet
+  | s :: rest =>
+      match fuel with
+      | O => None
+      | S f =>
+          match succs s with
+          | [] => explore_b succs keep f rest seen (if mem state_eqb s quiet then quiet else s :: quiet)
+          | ss => let (fresh, seen') := b_fresh (filter keep ss) seen in explore_b succs keep f (fresh ++ rest) seen' quiet
+          end
+      end
+  end.
+
+(* every quiescent state the model can reach in reaction to one environment action; [fuel] bounds the number of
+   states expanded (None when it runs out) *)
+Definition react_all_f (fuel : nat) (s : state) (a : act) : option (list state) :=
   let s1 := canon (ext (clear_log s) a) in
-  explore state_eqb int_succs 5000 [s1] [s1] [].
+  explore_b int_succs (fun _ => true) fuel [s1] (b_add (state_fp s1) s1 []) [].
+
+(* The bound used by the checks (states expanded per reaction); see docs/notes-sv.md for the measurement of what
+   the unchanged tree needs. *)
+Definition explore_fuel : nat := 60000.
+Definition react_all := react_all_f explore_fuel.
 
 (* ---- what the model predicts at a quiescent point ---- *)
 Fixpoint idx_where {A} (p : A -> bool) (n : nat) (l : list A) : list Z :=
@@ -219,6 +307,22 @@ Definition obs_eqb (a b : obs) : bool :=
   && (o_writer a =? o_writer b) && (o_workers a =? o_workers b) && (o_hs a =? o_hs b)
   && Bool.eqb (o_wblocked a) (o_wblocked b).
 
+(* Guided exploration. The log of a reaction only grows, so a state can lead to a quiescent state that predicts
+   observation [o] only if the envelopes it has written so far are a prefix of those observed (in order) and
+   every visible event it has logged was observed: every other state is pruned. *)
+Fixpoint prefix_eqb {A} (eqb : A -> A -> bool) (p l : list A) : bool :=
+  match p, l with
+  | [], _ => true
+  | x :: p', y :: l' => eqb x y && prefix_eqb eqb p' l'
+  | _ :: _, [] => false
+  end.
+Definition consistent (o : obs) (s : state) : bool :=
+  prefix_eqb frame_eqb (writes_of (log s)) (o_writes o)
+  && forallb (fun e => negb (visible e) || mem sev_eqb e (o_events o)) (log s).
+Definition react_guided (fuel : nat) (s : state) (a : act) (o : obs) : option (list state) :=
+  let s1 := canon (ext (clear_log s) a) in
+  explore_b int_succs (consistent o) fuel [s1] (b_add (state_fp s1) s1 []) [].
+
 (* fast path: the deterministic scheduler ([settle]: first enabled rule) *)
 Fixpoint agree_fast (s : state) (acts : list act) (observed : list obs) : bool :=
   match acts, observed with
@@ -232,20 +336,22 @@ Fixpoint agree_fast (s : state) (acts : list act) (observed : list obs) : bool :
 
 (* index of the first step at which no outcome of the model matches the observation; the candidates
    are the model states compatible with everything observed so far *)
-Fixpoint agree_from (i : nat) (cands : list state) (acts : list act) (observed : list obs) : option nat :=
+Fixpoint agree_from_f (fuel i : nat) (cands : list state) (acts : list act) (observed : list obs) : option nat :=
   match acts, observed with
   | a :: acts', o :: obs' =>
-      let nexts := flat_map (fun s => match react_all s a with
+      let nexts := flat_map (fun s => match react_guided fuel s a o with
                                       | Some qs => filter (fun s' => obs_eqb (predict s') o) qs
                                       | None => []
                                       end) cands in
       match dedup state_eqb nexts with
       | [] => Some i
-      | ns => agree_from (S i) ns acts' obs'
+      | ns => agree_from_f fuel (S i) ns acts' obs'
       end
   | [], [] => None
   | _, _ => Some i
   end.
+
+Definition agree_from := agree_from_f explore_fuel.
 
 Definition first_disagreement (c : svcase) : option nat :=
   match c with CSrv acts observed => agree_from 0 [init] acts observed end.
@@ -257,15 +363,20 @@ Definition agrees (c : svcase) : bool :=
       else match agree_from 0 [init] acts observed with None => true | Some _ => false end
   end.
 
-Definition check_agree (c : svcase) : list nat :=
+Definition check_agree_f (fuel : nat) (c : svcase) : list nat :=
   match c with
   | CSrv acts observed =>
       if agree_fast init acts observed then []
-      else match agree_from 0 [init] acts observed with
+      else match agree_from_f fuel 0 [init] acts observed with
            | None => []
            | Some i => [1%nat; (100 + i)%nat]
            end
   end.
+Definition check_agree := check_agree_f explore_fuel.
+
+(* how many cases need the all-orders exploration (evidence) *)
+Definition needs_fallback (c : svcase) : bool :=
+  match c with CSrv acts observed => negb (agree_fast init acts observed) end.
 
 (* ---- the whole observed history of a case (for the property predicates) ---- *)
 Definition all_events (c : svcase) : list sev :=
@@ -275,12 +386,13 @@ Definition all_writes (c : svcase) : list frame :=
 Definition delivered (c : svcase) : list frame :=
   match c with CSrv acts _ => filter_map (fun a => match a with ADeliver f => Some f | _ => None end) acts end.
 
-Fixpoint find_bad_from (i : nat) (cs : list svcase) : list (nat * list nat) :=
+Fixpoint find_bad_fuel (fuel i : nat) (cs : list svcase) : list (nat * list nat) :=
   match cs with
   | [] => []
   | c :: rest =>
-      match check_agree c with
-      | [] => find_bad_from (S i) rest
-      | rs => (i, rs) :: find_bad_from (S i) rest
+      match check_agree_f fuel c with
+      | [] => find_bad_fuel fuel (S i) rest
+      | rs => (i, rs) :: find_bad_fuel fuel (S i) rest
       end
   end.
+Definition find_bad_from := find_bad_fuel explore_fuel.
